@@ -428,4 +428,82 @@ theorem vertexAt_position {S : P → Prop} (hc : CloseEquivOn close S) (slaves :
 
 end PropsHelpers
 
+/-! ### histories -/
+
+section HistLemmas
+variable {P N : Type} [DecidableEq N] [LE N] [DecidableLE N] (close : P → P → Bool)
+
+theorem runHist_append (a b : List (Step P N)) : ∀ (st : MeshSt P N),
+    runHist close st (a ++ b) =
+      ((runHist close (runHist close st a).1 b).1, (runHist close st a).2 ++ (runHist close (runHist close st a).1 b).2) := by
+  induction a with
+  | nil => intro st; simp [runHist]
+  | cons s rest ih =>
+    intro st
+    cases s <;> simp [runHist, ih]
+
+theorem runHist_decl (steps : List (Step P N)) : ∀ (st : MeshSt P N),
+    (runHist close st steps).1.depot = st.depot ++ addsOf steps ∧
+    (runHist close st steps).1.merged = st.merged ++ mergesOf steps := by
+  induction steps with
+  | nil => intro st; simp [runHist, addsOf, mergesOf]
+  | cons s rest ih =>
+    intro st
+    cases s <;> simp [runHist, MeshSt.step, addsOf, mergesOf, ih]
+
+theorem runHist_noAssemble (steps : List (Step P N)) (h : noAssemble steps = true) : ∀ (st : MeshSt P N),
+    st.vl.vertices = [] → st.vl.duplicated = [] → st.blocks = [] →
+    (runHist close st steps).1.vl.vertices = [] ∧ (runHist close st steps).1.vl.duplicated = [] ∧
+    (runHist close st steps).1.blocks = [] ∧ (runHist close st steps).2 = [] := by
+  induction steps with
+  | nil => intro st h1 h2 h3; exact ⟨h1, h2, h3, rfl⟩
+  | cons s rest ih =>
+    intro st h1 h2 h3
+    cases s with
+    | assemble => simp [noAssemble] at h
+    | add op =>
+      have := ih (by simpa [noAssemble] using h) (st.step close (Step.add op)) h1 h2 h3
+      simpa [runHist] using this
+    | merge m sl =>
+      have := ih (by simpa [noAssemble] using h) (st.step close (Step.merge m sl)) h1 h2 h3
+      simpa [runHist] using this
+    | query =>
+      have := ih (by simpa [noAssemble] using h) (st.step close (Step.query)) h1 h2 h3
+      simpa [runHist] using this
+    | clear =>
+      have := ih (by simpa [noAssemble] using h) (st.step close Step.clear) rfl rfl rfl
+      simpa [runHist] using this
+
+theorem addsOf_append (a b : List (Step P N)) : addsOf (a ++ b) = addsOf a ++ addsOf b := by
+  induction a with
+  | nil => rfl
+  | cons s rest ih => cases s <;> simp [addsOf, ih]
+
+theorem mergesOf_append (a b : List (Step P N)) : mergesOf (a ++ b) = mergesOf a ++ mergesOf b := by
+  induction a with
+  | nil => rfl
+  | cons s rest ih => cases s <;> simp [mergesOf, ih]
+
+/-- what the last `assemble` of `h ++ [clear] ++ mid ++ [assemble]` leaves behind -/
+theorem runHist_reassemble (h mid : List (Step P N)) (hm : noAssemble mid = true) :
+    (runHist close {} (h ++ [Step.clear] ++ mid ++ [Step.assemble])).2.getLast? =
+      some (assemble close (slavePatches (mergesOf (h ++ mid))) {} (addsOf (h ++ mid))) := by
+  rw [runHist_append, runHist_append, runHist_append]
+  obtain ⟨d1, m1⟩ := runHist_decl close h ({} : MeshSt P N)
+  generalize hst : (runHist close ({} : MeshSt P N) h).1 = st1 at d1 m1 ⊢
+  have hc : (runHist close st1 [Step.clear]).1 = { st1 with vl := {}, blocks := [] } := by simp [runHist, MeshSt.step]
+  rw [hc]
+  obtain ⟨d2, m2⟩ := runHist_decl close mid { st1 with vl := {}, blocks := [] }
+  obtain ⟨v1, v2, v3, _⟩ := runHist_noAssemble close mid hm { st1 with vl := {}, blocks := [] } rfl rfl rfl
+  generalize (runHist close { st1 with vl := {}, blocks := [] } mid).1 = st2 at d2 m2 v1 v2 v3 ⊢
+  have hvl : st2.vl = {} := by
+    cases hv : st2.vl with
+    | mk vs ds => rw [hv] at v1 v2; simp at v1 v2; subst v1; subst v2; rfl
+  simp only [runHist, MeshSt.step, List.getLast?_append, List.getLast?_singleton, hvl, v3,
+    List.nil_append]
+  simp only [d2, m2, d1, m1, addsOf_append, mergesOf_append]
+  simp
+
+end HistLemmas
+
 end CBV.C05
